@@ -272,6 +272,14 @@ Fixpoint mentioned (ops : list op) : list bytes :=
 Definition hvalues (n : bytes) (hs : list (bytes * bytes)) : list bytes :=
   map snd (filter (fun h => beqb (fst h) n) hs).
 
+(* The property for one request on the wire, as a proposition: the method, URL and body are the
+   described ones and, for EVERY header name, the values on the wire under that name are exactly
+   the described values in the described order (so nothing is added and nothing is lost). *)
+Definition described (full : bool) (method : bytes) (url_str : option bytes -> bytes) (ops : list op)
+           (r : http_request) : Prop :=
+  q_method r = method /\ q_url r = url_str (spec_query ops None) /\ q_body r = spec_body ops [] /\
+  forall n, hvalues n (q_headers r) = spec_vals full n ops.
+
 (* what was observed at the shell boundary *)
 Inductive obs := ObsSent (l : list http_request) | ObsRefused | ObsPanic.
 
